@@ -280,7 +280,91 @@ func genC01MultiPrompt(g *Gen) *wire.Scenario {
 	return sc
 }
 
+// genC01Autosuggest: history autosuggestions switched on, the text typed is the beginning of a stored line
+// (so that a suggestion is displayed), and the commands that act on a suggestion at the end of the line:
+// word and character motions (they accept the suggestion piece by piece), the autosuggest commands, edits.
+func genC01Autosuggest(g *Gen) *wire.Scenario {
+	mode := Pick(g, []string{"emacs", "vi", "vi"})
+	sc := &wire.Scenario{Prop: "C01", Family: "edit-autosuggest", Env: g.swarmEnv(mode)}
+	entries := []string{"git push", "git push origin main", "echo héllo wörld", "ls", "日本語 テキスト", "make -j4 all", "a"}
+	if g.P(50) {
+		entries = append(entries, g.histLine(false))
+	}
+	sc.Env.History = []wire.HistSrc{{Kind: "memory", Name: "h0", Entries: entries}}
+	sc.Env.NoDefaultHistory = true
+	var rc []string
+	for _, l := range sc.Env.Inputrc {
+		if !strings.Contains(l, "history-autosuggest") {
+			rc = append(rc, l)
+		}
+	}
+	sc.Env.Inputrc = append(rc, "set history-autosuggest on")
+	e := []rune(Pick(g, entries))
+	cut := g.Range(0, len(e))
+	if g.P(50) && len(e) > 1 {
+		cut = g.Range(len(e)-3, len(e)-1) // inside the last word
+		if cut < 0 {
+			cut = 0
+		}
+	}
+	if g.P(40) {
+		// recalled and shortened rather than typed
+		km := map[string]string{"emacs": "emacs", "vi": "vi-insert"}[mode]
+		if seq := g.Cat.ShortSeqFor(km, "previous-history"); seq != "" {
+			for i := 0; i < g.Range(1, 3); i++ {
+				sc.Script = append(sc.Script, tok(seq, "previous-history"))
+			}
+			for i := 0; i < g.Range(1, 3); i++ {
+				sc.Script = append(sc.Script, tok("\x7f", "backward-delete-char"))
+			}
+		}
+	} else {
+		for _, r := range e[:cut] {
+			sc.Script = append(sc.Script, tok(string(r), "self-insert"))
+		}
+	}
+	km := "emacs"
+	pool := []string{"forward-word", "forward-char", "end-of-line", "autosuggest-accept", "autosuggest-execute", "autosuggest-toggle",
+		"backward-char", "backward-delete-char", "forward-word", "kill-line", "shell-forward-word", "emacs-forward-word"}
+	if mode == "vi" {
+		if g.P(70) {
+			sc.Script = append(sc.Script, tok("\x1b", "vi-movement-mode"))
+			km = "vi-command"
+			pool = []string{"vi-forward-word", "vi-forward-word", "vi-forward-bigword", "vi-forward-blank-word", "vi-end-word", "vi-forward-char", "vi-end-of-line",
+				"vi-append-eol", "vi-add-next", "vi-forward-word-end", "vi-end-bigword", "vi-backward-char", "vi-delete-char", "vi-movement-mode", "forward-word", "end-of-line"}
+		} else {
+			km = "vi-insert"
+		}
+	}
+	for i := 0; i < g.Range(1, 6); i++ {
+		cmd := Pick(g, pool)
+		seq := g.Cat.ShortSeqFor(km, cmd)
+		if seq == "" {
+			continue
+		}
+		if g.P(15) && km != "vi-insert" {
+			d := fmt.Sprint(g.Range(2, 4))
+			if km == "emacs" {
+				d = "\x1b" + d
+			}
+			sc.Script = append(sc.Script, tok(d, "digit-argument"))
+		}
+		sc.Script = append(sc.Script, tok(seq, cmd))
+		if cmd == "vi-append-eol" || cmd == "vi-add-next" {
+			sc.Script = append(sc.Script, tok("\x1b", "vi-movement-mode"))
+		}
+	}
+	if g.P(50) {
+		sc.Script = append(sc.Script, tok("\r", "accept-line"))
+	}
+	sc.Plan = wire.Plan{Policy: "seeded", Class: Pick(g, []string{"S1", "S2"}), Seed: g.Seed()}
+	return sc
+}
+
 func genC01(g *Gen, tier string, idx int) *wire.Scenario {
+	if idx%16 == 5 {
+		return genC01Autosuggest(g)
+	}
 	if idx%8 == 7 {
 		return genC01ViStructured(g)
 	}
